@@ -3,6 +3,8 @@
 package checks
 
 import (
+	"gopkg.in/yaml.v3"
+
 	"encoding/json"
 	"fmt"
 	"os"
@@ -26,7 +28,7 @@ type typedPath struct {
 
 // schemaTypedPaths walks /repo/schema/compose-spec.json for positions that admit a string next to a typed value.
 func schemaTypedPaths() ([]typedPath, error) {
-	b, err := os.ReadFile(core.RepoRoot+"/schema/compose-spec.json")
+	b, err := os.ReadFile(core.RepoRoot + "/schema/compose-spec.json")
 	if err != nil {
 		return nil, err
 	}
@@ -308,6 +310,24 @@ func C08(c *core.Ctx) {
 					c.Report(core.Finding{Sig: "escape-rejected", Detail: fmt.Sprintf("the escaped document %s fails to load: %v", escaped, ex), Replay: rep})
 				} else if projDump(po) != projDump(px) {
 					c.Report(core.Finding{Sig: "escape-differs", Detail: fmt.Sprintf("%s with every $ doubled and interpolation on differs from the original with interpolation off: %s", rendered, firstDiff(projDump(px), projDump(po))), Replay: rep})
+				}
+			}
+			// the same parsed document handed to the loader twice (types.ConfigFile.Config): interpolation must not
+			// have touched it the first time - the second load gives what the first gave
+			if trees%2 == 0 && ex == nil {
+				var parsed map[string]interface{}
+				if yaml.Unmarshal([]byte(escaped), &parsed) == nil && parsed != nil {
+					p1, e1 := safeLoad(wd, env, []namedDoc{{Name: filepath.Join(wd, "c.yaml"), Config: parsed}})
+					p2, e2 := safeLoad(wd, env, []namedDoc{{Name: filepath.Join(wd, "c.yaml"), Config: parsed}})
+					c.Eval("tree-parsed|"+escaped, true)
+					switch {
+					case e1 != nil:
+						c.Report(core.Finding{Sig: "parsed-rejected", Detail: fmt.Sprintf("%s loads from text but not as a parsed document: %v", escaped, e1), Replay: rep})
+					case e2 != nil || projDump(p1) != projDump(p2):
+						c.Report(core.Finding{Sig: "parsed-reload-differs", Detail: fmt.Sprintf("the parsed document of %s loaded twice gives different results (interpolation changed the caller's document): second error %v, %s", escaped, e2, firstDiff(projDump(p1), projDump(p2))), Replay: rep})
+					case projDump(p1) != projDump(px):
+						c.Report(core.Finding{Sig: "parsed-differs", Detail: fmt.Sprintf("%s loads differently from text and as a parsed document: %s", escaped, firstDiff(projDump(p1), projDump(px))), Replay: rep})
+					}
 				}
 			}
 			return nil
